@@ -504,6 +504,83 @@ static void op_append_bounded(Case &k, const Bytes &prefix, size_t cap) {
   }
   c.label("op:append-bounded");
 }
+// ---- append to target arrays in different states: empty, raw with content, raw and shared with a second handle, typed
+//      content (elements stored with mpt_array_set() and basic type traits). Differential on two identical targets.
+enum { TgtEmpty, TgtRaw, TgtShared, TgtTyped, NTgt };
+static const char *kTgt[] = {"empty", "raw", "shared", "typed"};
+struct ArrState {
+  int ret = 0;
+  bool has_buf = false;
+  size_t used = 0;
+  const void *traits = 0;
+  Bytes bytes;
+  void take(array *a) {
+    CBuf *b = cbuf(a);
+    has_buf = b != 0;
+    used = b ? b->used : 0;
+    traits = b ? (const void *)b->traits : 0;
+    bytes = b ? Bytes((const char *)b->data(), b->used) : Bytes();
+  }
+  bool same_array(const ArrState &o) const { return has_buf == o.has_buf && used == o.used && traits == o.traits && bytes == o.bytes; }
+};
+struct Target2 {  // one target array, optionally with a second handle on the same buffer
+  CObj<array> arr, other;
+  ~Target2() { mpt_array_clone(arr, 0); mpt_array_clone(other, 0); }
+};
+static void make_target(Ctx &c, Target2 &t, int state, const Bytes &prefix, int type, const Bytes &elements) {
+  switch (state) {
+    case TgtEmpty: break;
+    case TgtRaw: case TgtShared:
+      CK(c, mpt_array_append(t.arr, prefix.size(), prefix.data()) != 0, "harness", "mpt_array_append failed");
+      if (state == TgtShared) CK(c, mpt_array_clone(t.other, t.arr) >= 0 && cbuf(t.other) == cbuf(t.arr), "harness", "mpt_array_clone did not share the buffer");
+      break;
+    default: {
+      const type_traits *tr = mpt_type_traits(type);
+      CK(c, tr && tr->size && elements.size() % tr->size == 0, "harness", "no basic type traits for '%c'", type);
+      CK(c, mpt_array_set(t.arr, tr, elements.size(), elements.data(), 0) != 0, "harness", "mpt_array_set failed");
+      CK(c, cbuf(t.arr) && cbuf(t.arr)->traits == tr, "harness", "array content is not typed after mpt_array_set");
+      break;
+    }
+  }
+}
+static void op_append_state(Case &k, int state, const Bytes &prefix, int type, const Bytes &elements) {
+  Ctx &c = k.c;
+  Target2 tf, to;
+  make_target(c, tf, state, prefix, type, elements);
+  make_target(c, to, state, prefix, type, elements);
+  ArrState bf, bo, af, ao, of_before, oo_before, of_after, oo_after;
+  bf.take(tf.arr); bo.take(to.arr);
+  of_before.take(tf.other); oo_before.take(to.other);
+  CK(c, bf.same_array(bo), "harness", "the two targets differ before the append");
+  ao.ret = mpt_message_append(to.arr, &k.omsg);
+  af.ret = mpt_message_append(tf.arr, &k.fmsg);
+  ao.take(to.arr); af.take(tf.arr);
+  of_after.take(tf.other); oo_after.take(to.other);
+  c.logf("append to %s target (%zu bytes%s): fragmented %d -> %zu bytes %s, contiguous %d -> %zu bytes %s", kTgt[state], bo.used, state == TgtTyped ? " of typed elements" : "", af.ret, af.used,
+         af.traits ? "typed" : "raw", ao.ret, ao.used, ao.traits ? "typed" : "raw");
+  CK(c, af.ret == ao.ret, "append-differs", "mpt_message_append to a %s target: %d for the fragments, %d for the contiguous string", kTgt[state], af.ret, ao.ret);
+  CK(c, af.same_array(ao), "append-differs", "mpt_message_append to a %s target (returned %d): array has %zu bytes %s content %s after the fragments, %zu bytes %s content %s after the contiguous string",
+     kTgt[state], af.ret, af.used, af.traits ? "typed" : "raw", show(af.bytes).c_str(), ao.used, ao.traits ? "typed" : "raw", show(ao.bytes).c_str());
+  // absolute rules on the contiguous run: refusal leaves the target as it was, success appends the text to raw content
+  if (ao.ret < 0) {
+    CK(c, ao.same_array(bo), "append-failed-changed", "refused mpt_message_append changed the %s target: %zu -> %zu bytes", kTgt[state], bo.used, ao.used);
+    CK(c, af.same_array(bf), "append-failed-changed", "refused mpt_message_append of the fragments changed the %s target: %zu -> %zu bytes, %s -> %s content", kTgt[state], bf.used, af.used,
+       bf.traits ? "typed" : "raw", af.traits ? "typed" : "raw");
+    c.label("append-state:refused");
+  } else if (state != TgtTyped) {
+    CK(c, ao.bytes == bo.bytes + k.text && !ao.traits, "append-reference", "mpt_message_append to a %s target: array holds %zu bytes %s, expected %zu", kTgt[state], ao.used, show(ao.bytes).c_str(),
+       bo.used + k.text.size());
+  } else {
+    // typed content takes no raw bytes: an accepted append can only be the empty one
+    CK(c, ao.same_array(bo) && af.same_array(bf), "append-typed-changed", "mpt_message_append (returned %d) changed typed array content: %zu -> %zu bytes, %s content", ao.ret, bo.used, ao.used, ao.traits ? "typed" : "raw");
+  }
+  // a second handle on the former buffer keeps reading its bytes
+  CK(c, of_after.same_array(of_before) && oo_after.same_array(oo_before), "append-other-handle", "mpt_message_append changed what another handle of the %s buffer reads: %zu -> %zu / %zu -> %zu bytes", kTgt[state],
+     of_before.used, of_after.used, oo_before.used, oo_after.used);
+  c.label((std::string("append-state:") + kTgt[state]).c_str());
+  c.label("op:append-state");
+  if (k.nonempty >= 2) k.nt = true;
+}
 static void op_array_message(Case &k, int sep) {
   Ctx &c = k.c;
   CObj<array> af, ao;
@@ -679,7 +756,7 @@ static Bytes draw_tokset(Ctx &c, const char *typical) {
   return s;
 }
 
-enum { OpRead, OpLength, OpMemchr, OpMemstr, OpMemfcn, OpMemtok, OpMemcpy, OpAppend, OpArgv, OpArrayMessage, OpAppendBounded, OpGet, NOp };
+enum { OpRead, OpLength, OpMemchr, OpMemstr, OpMemfcn, OpMemtok, OpMemcpy, OpAppend, OpArgv, OpArrayMessage, OpAppendBounded, OpGet, OpAppendState, NOp };
 
 static void one_op(Case &k, int op) {
   Ctx &c = k.c;
@@ -747,6 +824,19 @@ static void one_op(Case &k, int op) {
       break;
     }
     case OpGet: op_get(k); break;
+    case OpAppendState: {
+      int state = (int)c.weighted({1, 2, 3, 4});
+      Bytes prefix(c.range(1, 24), 'p'), elements;
+      static const char types[] = {'d', 'i', 'c', 'x', 'f'};
+      int type = types[c.pick(sizeof types)];
+      if (state == TgtTyped) {
+        const type_traits *tr = mpt_type_traits(type);
+        size_t es = tr && tr->size ? tr->size : 1, ne = c.range(1, 4);
+        for (size_t i = 0; i < es * ne; i++) elements.push_back((char)(0x30 + i % 64));
+      }
+      op_append_state(k, state, prefix, type, elements);
+      break;
+    }
   }
 }
 
@@ -770,7 +860,7 @@ static void run(Ctx &c) {
   CK(c, flatten(k.fmsg) == k.text && flatten(k.omsg) == k.text, "harness", "fragment construction broken");
   unsigned ops = 0;
   do {
-    one_op(k, (int)c.weighted({4, 1, 2, 2, 2, 4, 3, 2, 5, 3, 3, 3}));  // new operations are added at the end: existing case bytes keep their meaning
+    one_op(k, (int)c.weighted({4, 1, 2, 2, 2, 4, 3, 2, 5, 3, 3, 3, 3}));  // new operations are added at the end: existing case bytes keep their meaning
   } while (++ops < 8 && c.more());
   if (k.nt) c.nontrivial();
 }
@@ -827,6 +917,9 @@ static void run_enum(Ctx &c) {
   for (int sep : {(int)' ', (int)'a', 0, (int)'\n'}) { op_argv(k, sep); op_array_message(k, sep); }
   op_append(k, Bytes());
   op_append(k, "pp");
+  op_append_state(k, TgtShared, "pp", 0, Bytes());
+  op_append_state(k, TgtTyped, Bytes(), 'd', Bytes(16, '1'));
+  op_append_state(k, TgtTyped, Bytes(), 'c', Bytes(3, '1'));
   // fixed-capacity arrays: every capacity from "nothing fits" to "just fits", with and without content before
   for (size_t room = 0; room <= n; room++) { op_append_bounded(k, Bytes(), room); op_append_bounded(k, "pp", 2 + room); }
   // queue ranges: independent of the composition, so only once per string (with the uncut form as the caller's message)
@@ -856,7 +949,7 @@ static Target t = {
     "C17",
     "random: text <= 300 bytes (words/white space/quotes/separators/comments/NULs | 1-4 symbol alphabet | arbitrary) x composition into <= 6 fragments with empty fragments, each fragment an "
     "exact-size heap block, or the parts mpt_message_get() yields for a range of a (wrapped) queue; 1-8 operations out of read schedules (lengths at fragment borders +-1), length, "
-    "memchr/memrchr, memstr/memrstr, memfcn/memrfcn, memtok(tok,com,esc), memcpy into a <= 4 fragment target, mpt_message_append (growing array | array on a fixed-capacity buffer that refuses to grow, capacity at fragment borders +-1), the argv/read/skip loop, mpt_array_message, mpt_message_get over ranges of a second (wrapped) queue with and without the spare iovec into the message the caller holds (refusal must leave it unchanged); every result compared "
+    "memchr/memrchr, memstr/memrstr, memfcn/memrfcn, memtok(tok,com,esc), memcpy into a <= 4 fragment target, mpt_message_append (growing array | two identical targets that are empty / raw / raw and shared with a second handle / typed elements | array on a fixed-capacity buffer that refuses to grow, capacity at fragment borders +-1), the argv/read/skip loop, mpt_array_message, mpt_message_get over ranges of a second (wrapped) queue with and without the spare iovec into the message the caller holds (refusal must leave it unchanged); every result compared "
     "with the same call on the contiguous copy and with a flat reference where one exists. exhaustive: all strings of length <= 5 (thorough: 6) over {a, space, quote, newline} x all compositions "
     "into <= 3 fragments x a fixed battery of all operations. non-trivial: >= 2 non-empty fragments and the answer position / consumed extent lies behind the first non-empty fragment "
     "(enumerated cases all count); distinct by hash of the draw sequence.",
